@@ -123,6 +123,9 @@ class C16(core.Check):
                     return viol('chunk sizes', f'{math.ceil(n / bs)} chunks of {bs} (last 1..{bs})', sizes)
             if r['out'] == 'raises':
                 return viol('assembly raised', 'a container', 'raises')
+            if isinstance(r['out'], dict) and 'dtype-changed' in r['out']:
+                return viol('the assembled embedding does not keep the dtype of the callable\'s output',
+                            r['out']['dtype-changed'][0], r['out']['dtype-changed'][1])
             rows = ck.rows_of(r['out']['ok'], col)
             if col['kind'] in ('text_emb', 'image_emb'):
                 exp_rows = [ck.emb_f(col['D'], s) for s in flat]
@@ -137,7 +140,7 @@ class C16(core.Check):
             key_sorted = case['path'] == 'dataset' and any(c.get('ord', 'fixed') != 'fixed' for c in case['cols'])
 
             def norm(out):      # chunk16.run_dataset reports the keys of such a frame sorted
-                if key_sorted and out != 'raises' and isinstance(out['ok'], list):
+                if key_sorted and isinstance(out, dict) and isinstance(out.get('ok'), list):
                     return {'ok': sorted(out['ok'], key=lambda km: km[0])}
                 return out
             for b2 in others - {bs}:
